@@ -376,6 +376,54 @@ func genC06(c *Ctx) {
 			c.Count("reused.across-sizes")
 		}
 	}
+	// (6b) one depth-first solver asked about a position and then about positions two plies BELOW it (3x3, reduced
+	// reserves): entries the first call left unsolved - with their moves - meet the later calls
+	for k := c.Scale(12, 48); k > 0; k-- {
+		caseNo++
+		c.Emit(fmt.Sprintf("case %d.%d", c.Shard, caseNo))
+		att := []tak.Color{tak.NoColor, tak.White, tak.Black}[r.Intn(3)]
+		ent := dfpnEntries[r.Intn(len(dfpnEntries))]
+		c.Emit(fmt.Sprintf("dfpnnew d %s %d", colorStr(att), ent))
+		root := tak.New(tak.Config{Size: 3, Pieces: 4 + r.Intn(3), Capstones: r.Intn(2)})
+		for i := 0; i < 2+r.Intn(4); i++ {
+			ms := legalMoves(root)
+			if len(ms) == 0 {
+				break
+			}
+			if n, err := root.Move(ms[r.Intn(len(ms))]); err == nil {
+				if o, _ := n.GameOver(); !o {
+					root = n
+				}
+			}
+		}
+		ask := func(p *tak.Position, tag string) {
+			d, _ := c.S.slots["dfpn:d"].(*prove.DFPNSolver)
+			if d != nil && dfpnFinishesOn(d, p, 700*time.Millisecond, c.dfpnBudget()) {
+				tagResult(c, "dfpn.below."+tag, c.Emit("dfpnuse d b2 "+encPos(p)))
+			} else {
+				c.Count("dfpn.below.skipped")
+				if d == nil || d.VerifTableLen() == 0 {
+					c.Emit(fmt.Sprintf("dfpnnew d %s %d", colorStr(att), ent))
+				}
+			}
+		}
+		ask(root, "root")
+		for j := 0; j < 6; j++ {
+			q := root
+			for step := 0; step < 2; step++ {
+				ms := legalMoves(q)
+				if len(ms) == 0 {
+					break
+				}
+				if n, err := q.Move(ms[r.Intn(len(ms))]); err == nil {
+					q = n
+				}
+			}
+			if o, _ := q.GameOver(); !o && q != root {
+				ask(q, "grandchild")
+			}
+		}
+	}
 	lap("reused")
 
 	// (7) very wide positions (tall stacks of the side to move on 7x7/8x8: over a thousand moves), where the
